@@ -62,6 +62,7 @@ Calls ==
     { [op |-> "BReserve", n |-> 7] }
     \cup { [op |-> "BSetLen", v |-> x] : x \in (IF Level = 1 THEN {-1, 5, 65535} ELSE {-1, 0, 5, 258, 65535}) }
     \cup { [op |-> "BWrite", p |-> p] : p \in Values }
+    \cup { [op |-> "BWrites", ps |-> << U("u8", << 7 >>), [ty |-> "tlv", t |-> Named("NoOp"), v |-> Run(42, 1)] >>, lazy |-> TRUE] }
     \cup { [op |-> "BWrites", ps |-> << >>],
            [op |-> "BWrites", ps |-> << U("u8", << 7 >>), [ty |-> "tlv", t |-> Named("NoOp"), v |-> Run(42, 1)], U("u16", << 1, 2 >>) >>],
            [op |-> "BWrites", ps |-> << [ty |-> "slice", v |-> Run(9, 3)], [ty |-> "slice", v |-> Run(170, 65536)], U("u8", << 7 >>) >>] }
